@@ -64,6 +64,10 @@ type c04Spec struct {
 	// CutAtRestartMs: the link to the remote node is down while the daemon restarts and for this long afterwards
 	// (the first attempts to reach the remote node fail); the remote units must be followed all the same
 	CutAtRestartMs int    `json:"cut_at_restart_ms,omitempty"`
+	// LateKill: the script ends (the daemon is killed) as soon as some runner is six hits short of the runner kill
+	// point of this trial. The runners of the first daemon generation stay alive across the restart, so the kill is
+	// reached while the restarted daemon is already following that runner.
+	LateKill bool `json:"late_kill,omitempty"`
 	Strace         string `json:"strace,omitempty"` // syscall-level injector instead of a hook (thorough)
 	StraceN        int    `json:"strace_n,omitempty"`
 }
@@ -106,6 +110,8 @@ type c04Trial struct {
 	notes              []string
 	stopDrv            chan struct{}
 	straceKilledDaemon atomic.Bool
+	// the strace lane's watchdog goroutine (c04strace.go) is told to stop, and has stopped, before the clean restart
+	straceStop, straceDone chan struct{}
 }
 
 func (t *c04Trial) note(f string, a ...any) { t.notes = append(t.notes, fmt.Sprintf(f, a...)) }
@@ -173,7 +179,7 @@ func (t *c04Trial) driver(rng *rand.Rand) {
 		}
 	}()
 	for _, u := range t.units {
-		if !t.L.Alive() {
+		if !t.L.Alive() || t.lateKillNear() {
 			break
 		}
 		time.Sleep(time.Duration(gaps[rng.Intn(len(gaps))]) * time.Millisecond)
@@ -196,7 +202,10 @@ func (t *c04Trial) driver(rng *rand.Rand) {
 	}
 	// keep observing for a while (the long units need ~3.5 s), fetch results of finished units once
 	end := time.Now().Add(5500 * time.Millisecond)
-	for time.Now().Before(end) && t.L.Alive() {
+	if t.sp.LateKill {
+		end = time.Now().Add(15 * time.Second)
+	}
+	for time.Now().Before(end) && t.L.Alive() && !t.lateKillNear() {
 		for _, u := range t.units {
 			u.mu.Lock()
 			id, fin, done := u.ID, u.SeenFinal, u.ResultsOK
@@ -215,6 +224,20 @@ func (t *c04Trial) driver(rng *rand.Rand) {
 	}
 	close(stopPoll)
 	wg.Wait()
+}
+
+// lateKillNear (LateKill trials only): some runner is within six hits of the trial's runner kill point.
+func (t *c04Trial) lateKillNear() bool {
+	if !t.sp.LateKill {
+		return false
+	}
+	cr := t.sp.Crashes[0]
+	for _, h := range readPointLog(t.ptLog) {
+		if h.Role == cr.Role && h.Point == cr.Point && h.Hit >= cr.K-6 {
+			return true
+		}
+	}
+	return false
 }
 
 func (t *c04Trial) startL(crash *c04Crash) error {
@@ -324,13 +347,20 @@ func (t *c04Trial) execute() {
 	}
 	if t.L.Alive() {
 		// crash point not reached during the workload: kill at this (arbitrary) instant instead
-		if first.Point != "end" {
-			t.note("crash point %v not reached by the workload; killed at end of script instead", first)
-			run.Count("crash_points_not_reached", 1)
+		if first.Role == "runner" {
+			t.note("crash point %v is a runner's: the daemon itself is killed at the end of the script", first)
+		} else if first.Point != "end" {
+			t.note("crash point %v not reached by the workload; daemon killed at end of script instead", first)
 		}
 		t.L.Kill()
 	}
 	close(t.stopDrv)
+	if t.straceStop != nil {
+		// the syscall lane's watchdog must not outlive the process it watches: it would take the restarting daemon
+		// (whose control socket is not up yet) for the dead one and kill it
+		close(t.straceStop)
+		<-t.straceDone
+	}
 	// further crash cycles: crash the restart itself / later status rewrites
 	for i := 1; i < len(sp.Crashes); i++ {
 		cr := sp.Crashes[i]
@@ -343,23 +373,28 @@ func (t *c04Trial) execute() {
 			t.L.Kill()
 		}
 	}
-	t.killed = nil
-	for _, h := range readPointLog(t.ptLog) {
-		if h.Action == "kill" {
-			t.killed = append(t.killed, h)
-		}
-	}
-	// which unit's runner was killed (exempt from completion demands)
+	// which unit's runner was killed (exempt from completion demands). The runners of the first daemon generation
+	// outlive it and keep their kill point: a late hit (k-th status rewrite of a slow runner) can be reached after
+	// the daemon has been killed and restarted, so this is read again after quiescence, just before the evaluation.
 	runnerKilled := map[string]bool{}
-	for _, k := range t.killed {
-		if k.Role == "runner" {
-			for _, u := range t.units {
-				if u.ID != "" && strings.Contains(k.Detail, "/"+u.ID) {
-					runnerKilled[u.ID] = true
+	readKills := func() {
+		t.killed = nil
+		for _, h := range readPointLog(t.ptLog) {
+			if h.Action == "kill" {
+				t.killed = append(t.killed, h)
+			}
+		}
+		for _, k := range t.killed {
+			if k.Role == "runner" {
+				for _, u := range t.units {
+					if u.ID != "" && strings.Contains(k.Detail, "/"+u.ID) {
+						runnerKilled[u.ID] = true
+					}
 				}
 			}
 		}
 	}
+	readKills()
 	// runner liveness at restart time
 	runnerAlive := map[string]bool{}
 	for _, u := range t.units {
@@ -389,6 +424,7 @@ func (t *c04Trial) execute() {
 			t.px.Heal()
 		}()
 	}
+	restartAt := time.Now().UnixNano()
 	if err := t.startL(nil); err != nil {
 		fatal, top, _ := t.L.Fatal()
 		if fatal != "" {
@@ -413,6 +449,7 @@ func (t *c04Trial) execute() {
 	var list map[string]*ctl.Status
 	stable := 0
 	lastSig := ""
+	quiesced := false
 	for round := 0; round < 150; round++ {
 		var raw string
 		var err error
@@ -456,6 +493,7 @@ func (t *c04Trial) execute() {
 			}
 		}
 		if allFinal {
+			quiesced = true
 			break
 		}
 		if sig == lastSig && !busy {
@@ -465,6 +503,7 @@ func (t *c04Trial) execute() {
 		}
 		lastSig = sig
 		if stable >= 12 {
+			quiesced = true
 			break
 		}
 		time.Sleep(300 * time.Millisecond)
@@ -472,6 +511,41 @@ func (t *c04Trial) execute() {
 	if list == nil {
 		run.Inconclusive(fmt.Sprintf("C04 trial %d: no list after restart", sp.Idx))
 		return
+	}
+	if !quiesced {
+		// The rounds ran out. If the producer of an unfinished unit (the runner process of a local unit, or the
+		// runner of its counterpart on the remote node) is still alive, nothing can be said about "followed to
+		// completion" yet - on a loaded machine a producer can take this long - and a verdict now would be about
+		// the load, not about the restart: the trial is inconclusive. If every producer is gone and a unit is
+		// still not final after all these rounds, the evaluation below stands.
+		for _, u := range acked {
+			st := list[u.ID]
+			if st == nil || ctl.Final(st.State) {
+				continue
+			}
+			pdir := filepath.Join(t.L.DataDir(), u.ID)
+			if u.Remote {
+				ru, _ := st.ExtraData["RemoteUnitID"].(string)
+				if ru == "" {
+					continue
+				}
+				pdir = filepath.Join(t.R.DataDir(), ru)
+			}
+			if len(runnerPids(pdir)) > 0 {
+				run.Count("trials_without_quiescence", 1)
+				run.Inconclusive(fmt.Sprintf("C04 trial %d: no quiescence after 150 rounds: the runner of unit %s (%s) is still alive", sp.Idx, u.ID, u.Label))
+				return
+			}
+		}
+	}
+	// the kill point of a runner may have been reached after the restart (see readKills): read the log again
+	// now that no unfinished local unit has a live runner any more
+	readKills()
+	for _, k := range t.killed {
+		if k.Role == "runner" && k.T > restartAt {
+			t.note("runner kill %s:%s@%d was reached %d ms after the clean restart began", k.Role, k.Point, k.Hit, (k.T-restartAt)/1e6)
+			run.Count("runner_kills_reached_only_after_the_restart", 1)
+		}
 	}
 	// ---- evaluation against the ledger
 	kinds := []string{}
@@ -529,7 +603,9 @@ func (t *c04Trial) execute() {
 			mustComplete = true
 		}
 		if mustComplete && (st.State != wantState || st.StdoutSize != total) {
-			t.violation("not-followed", u, fmt.Sprintf("unit %s (%s) was running with a live runner / finished before the crash but ends as state %d size %d detail %q; expected state %d size %d", u.ID, u.Label, st.State, st.StdoutSize, st.Detail, wantState, total), nil)
+			// facts needed to triage this from the printed line alone
+			diag := fmt.Sprintf("kills performed %s; runner alive at restart %v, now %v; status file now %q", t.killsString(), runnerAlive[u.ID], !u.Remote && len(runnerPids(filepath.Join(t.L.DataDir(), u.ID))) > 0, trunc200(t.statusFile(u)))
+			t.violation("not-followed", u, fmt.Sprintf("unit %s (%s) was running with a live runner / finished before the crash but ends as state %d size %d detail %q; expected state %d size %d [%s]", u.ID, u.Label, st.State, st.StdoutSize, st.Detail, wantState, total, diag), nil)
 			continue
 		}
 		// output: whatever is recorded must be the expected stream; complete when the unit completed
@@ -621,6 +697,9 @@ func (t *c04Trial) execute() {
 	} else if len(t.killed) == 0 {
 		run.Distinct(fmt.Sprintf("end|acked=%d|%v", len(acked), sp.Crashes))
 	}
+	if first.Point != "end" && sp.Strace == "" && len(t.killed) == 0 {
+		run.Count("crash_points_not_reached", 1)
+	}
 	run.Count("acknowledged_units_checked", int64(len(acked)))
 	run.Count("kills_performed", int64(len(t.killed)))
 	if sp.Idx%9 == 0 {
@@ -630,6 +709,22 @@ func (t *c04Trial) execute() {
 		}
 		run.Sample(map[string]any{"crashes": sp.Crashes, "kills_performed": t.killed, "units": us, "notes": t.notes})
 	}
+}
+
+func (t *c04Trial) killsString() string {
+	ks := []string{}
+	for _, k := range t.killed {
+		ks = append(ks, fmt.Sprintf("%s:%s@%d(%s)", k.Role, k.Point, k.Hit, filepath.Base(strings.TrimSuffix(k.Detail, "/status"))))
+	}
+	return "[" + strings.Join(ks, " ") + "]"
+}
+
+func (t *c04Trial) statusFile(u *c04Unit) string {
+	b, err := os.ReadFile(filepath.Join(t.L.DataDir(), u.ID, "status"))
+	if err != nil {
+		return err.Error()
+	}
+	return strings.TrimSpace(string(b))
 }
 
 func (t *c04Trial) killedNow() bool {
@@ -673,7 +768,7 @@ func c04DryRun(run *ev.Run, dir string, seed int64) map[string]int {
 
 func runC04(tier string, args []string) {
 	run := ev.New("C04", tier, "fault_enumeration")
-	run.Rule("workload: 7 submissions (local short/empty/long/failing, remote short/long on a second daemon) with concurrent status polling; a dry run records every hook point hit per process role; then one trial per (role, point, k): the daemon or a runner process SIGKILLs itself at the k-th hit, the daemon is restarted on the same data directory (chains: the restart itself is crashed again), and after quiescence the acknowledged-unit ledger is compared with work list/status/results. quick: every point at its first hit + a middle hit + seeded later hits + restart-phase chains + syscall-level kills injected with strace (N-th ftruncate / write / openat of any thread of the daemon or a runner); distinct_nontrivial = distinct (role, point, hit, #acknowledged units) kills actually performed (from the point log)")
+	run.Rule("workload: 7 submissions (local short/empty/long/failing, remote short/long on a second daemon) with concurrent status polling; a dry run records every hook point hit per process role; then one trial per (role, point, k): the daemon or a runner process SIGKILLs itself at the k-th hit, the daemon is restarted on the same data directory (chains: the restart itself is crashed again), and after quiescence the acknowledged-unit ledger is compared with work list/status/results. quick: every point at its first hit + a middle hit + seeded later hits + restart-phase chains + runner kills reached only after the restart (the script ends when a runner is six rewrites short of its kill point) + syscall-level kills injected with strace (N-th ftruncate / write / openat of any thread of the daemon or a runner); distinct_nontrivial = distinct (role, point, hit, #acknowledged units) kills actually performed (from the point log)")
 	run.Assume("SIGKILL semantics: completed file-system operations persist (power loss is out of scope)")
 	run.Assume("completion is demanded only for units whose runner survived; a unit whose own runner was the killed process is judged on identity/consistency only")
 	work := workDir()
@@ -755,6 +850,16 @@ func runC04(tier string, args []string) {
 		for _, n := range k.ns {
 			specs = append(specs, &c04Spec{Idx: len(specs), Crashes: []c04Crash{{Role: "any", Point: "strace:" + k.sc, K: n}}, Seed: rng.Int63(), Strace: k.sc, StraceN: n})
 		}
+	}
+	// a runner of the first daemon generation dies only after the daemon has been killed and restarted, i.e. while
+	// the restarted daemon is following it: the script ends when a runner is six status rewrites (a second and a half)
+	// short of its kill point
+	lateKs := []int{10, 12}
+	if !run.Quick() {
+		lateKs = []int{7, 8, 9, 10, 11, 12, 13, 14}
+	}
+	for i, k := range lateKs {
+		specs = append(specs, &c04Spec{Idx: len(specs), Crashes: []c04Crash{{Role: "runner", Point: []string{"upd.truncated", "upd.written", "upd.loaded", "runner.tick"}[i%4], K: k}}, Seed: rng.Int63(), LateKill: true})
 	}
 	if len(args) >= 2 && args[0] == "--trial" {
 		var idx int
